@@ -71,3 +71,22 @@ Definition entry_pcm (v : val) : val :=
 (** "pcm_seq": a list of "pcm" inputs *)
 Definition entry_pcm_seq (v : val) : val :=
   match v with VL l => VL (map entry_pcm l) | _ => bad_input end.
+
+(** "pcm_opt": [optimiser-kind; scale; kind; param; equity; fee; prices; held; universe-assets; alpha-weights] *)
+Definition entry_pcm_opt (v : val) : val :=
+  match v with
+  | VL [VS okind; scale; VS kind; param; equity; fee; prices; held; univ; aw] =>
+      do scale <- dQ scale;
+      do param <- dQ param; do equity <- dQ equity; do fee <- dec_fee fee;
+      do prices <- dec_prices prices; do held <- dlist (dpair dS dZ) held;
+      do univ <- dlist dS univ; do aw <- dec_weights aw;
+      let sizer := if String.eqb kind "long_only"
+                   then lo_size equity param fee (price_lookup prices)
+                   else ls_size equity param fee (price_lookup prices) in
+      let o := if String.eqb okind "equal" then OptEqual scale else OptFixed in
+      enc_res (fun o => VL [enc_weights (pc_alloc o); enc_qtys (pc_target o); enc_qtys (pc_orders o)])
+              (pcm_call_opt sizer o held univ aw)
+  | _ => bad_input
+  end.
+Definition entry_pcm_opt_seq (v : val) : val :=
+  match v with VL l => VL (map entry_pcm_opt l) | _ => bad_input end.
